@@ -27,6 +27,7 @@ import (
 	"math/rand"
 	"os"
 	"path/filepath"
+	"runtime"
 	"strconv"
 	"strings"
 	"sync"
@@ -40,6 +41,7 @@ import (
 	"github.com/filecoin-project/go-f3/ec"
 	"github.com/filecoin-project/go-f3/gpbft"
 	"github.com/filecoin-project/go-f3/internal/clock"
+	"github.com/filecoin-project/go-f3/internal/encoding"
 	"github.com/filecoin-project/go-f3/manifest"
 	"github.com/filecoin-project/go-f3/sim/signing"
 	"github.com/ipfs/go-cid"
@@ -136,11 +138,49 @@ type linEC struct {
 	gateOn  map[string]bool
 	entered chan string
 	release chan struct{}
+	hl      *hookLog
 }
+
+// hookLog: what the runner did, in the order it did it (EC calls and participant trace lines share one log)
+type hookLog struct {
+	mu    sync.Mutex
+	lines []string
+}
+
+func (l *hookLog) add(s string) {
+	if l == nil {
+		return
+	}
+	l.mu.Lock()
+	l.lines = append(l.lines, s)
+	l.mu.Unlock()
+}
+func (l *hookLog) take() []string {
+	l.mu.Lock()
+	defer l.mu.Unlock()
+	out := l.lines
+	l.lines = nil
+	return out
+}
+func (l *hookLog) has(sub string) bool {
+	l.mu.Lock()
+	defer l.mu.Unlock()
+	for _, x := range l.lines {
+		if strings.Contains(x, sub) {
+			return true
+		}
+	}
+	return false
+}
+
+type recTracer struct{ l *hookLog }
+
+func (t *recTracer) Log(format string, args ...any) { t.l.add("trace:" + fmt.Sprintf(format, args...)) }
 
 var _ ec.Backend = (*linEC)(nil)
 
 func (b *linEC) enter(name string) {
+	b.hl.add("ec:" + name)
 	b.mu.Lock()
 	b.calls = append(b.calls, name)
 	gated := b.gateOn[name]
@@ -230,6 +270,16 @@ func (v *recVerifier) Verify(k gpbft.PubKey, msg, sig []byte) error {
 	v.sigs = append(v.sigs, append([]byte(nil), sig...))
 	v.mu.Unlock()
 	return v.FakeBackend.Verify(k, msg, sig)
+}
+func (v *recVerifier) saw(sig []byte) bool {
+	v.mu.Lock()
+	defer v.mu.Unlock()
+	for _, s := range v.sigs {
+		if string(s) == string(sig) {
+			return true
+		}
+	}
+	return false
 }
 func (v *recVerifier) take() [][]byte {
 	v.mu.Lock()
@@ -902,4 +952,403 @@ func TestRunnerHistories(t *testing.T) {
 		}
 	}
 	t.Logf("histories=%d events=%d time: crash=%v put/cert=%v stall=%v other=%v", nh, r.n, tot[0], tot[1], tot[2], tot[3])
+}
+
+// ================================================================== (iii) the real Start and event loop
+
+// loopIdle: every goroutine of gpbftRunner.Start (event loop, finalizer) is parked in its select.  A goroutine
+// with a value waiting on one of its channels is runnable, not parked - so after a stimulus that sends
+// synchronously (certstore.Put, mock clock) "parked" means "has nothing left to do".
+var stackBuf = make([]byte, 4<<20)
+
+func loopIdle() (idle bool, found int) {
+	buf := stackBuf
+	n := runtime.Stack(buf, true)
+	idle = true
+	for _, g := range strings.Split(string(buf[:n]), "\n\n") {
+		if !strings.Contains(g, "(*gpbftRunner).Start.func") {
+			continue
+		}
+		found++
+		hdr := g
+		if i := strings.IndexByte(g, '\n'); i >= 0 {
+			hdr = g[:i]
+		}
+		a, b := strings.IndexByte(hdr, '['), strings.IndexByte(hdr, ']')
+		st := ""
+		if a >= 0 && b > a {
+			st = hdr[a+1 : b]
+		}
+		if i := strings.IndexByte(st, ','); i >= 0 {
+			st = st[:i]
+		}
+		if st != "select" {
+			idle = false
+		}
+	}
+	return idle, found
+}
+
+func settle(t *testing.T, want int) {
+	deadline := time.Now().Add(120 * time.Second)
+	for time.Now().Before(deadline) {
+		if idle, found := loopIdle(); idle && found == want {
+			return
+		}
+		time.Sleep(time.Millisecond)
+	}
+	t.Fatalf("event loop did not settle")
+}
+
+// decideMsg: a DECIDE vote of `sender` for instance inst finalizing from..to, justified by everybody's COMMIT
+func (w *world) decideMsg(inst uint64, from, to int64, sender int) *gpbft.GMessage {
+	ctx := context.Background()
+	crt := w.mkCert(inst, from, to)
+	commit := gpbft.Payload{Instance: inst, Round: 0, Phase: gpbft.COMMIT_PHASE, SupplementalData: crt.SupplementalData, Value: crt.ECChain}
+	agg, err := w.sb.Aggregate(w.table.PublicKeys())
+	if err != nil {
+		w.t.Fatal(err)
+	}
+	cm := commit.MarshalForSigning(netName)
+	signers := bitfield.New()
+	var mask []int
+	var sigs [][]byte
+	for i, e := range w.table {
+		s, err := w.sb.Sign(ctx, e.PubKey, cm)
+		if err != nil {
+			w.t.Fatal(err)
+		}
+		signers.Set(uint64(i))
+		mask, sigs = append(mask, i), append(sigs, s)
+	}
+	asig, err := agg.Aggregate(mask, sigs)
+	if err != nil {
+		w.t.Fatal(err)
+	}
+	pl := gpbft.Payload{Instance: inst, Round: 0, Phase: gpbft.DECIDE_PHASE, SupplementalData: crt.SupplementalData, Value: crt.ECChain}
+	sig, err := w.sb.Sign(ctx, w.table[sender].PubKey, pl.MarshalForSigning(netName))
+	if err != nil {
+		w.t.Fatal(err)
+	}
+	return &gpbft.GMessage{Sender: w.table[sender].ID, Vote: pl, Signature: sig,
+		Justification: &gpbft.Justification{Vote: commit, Signers: signers, Signature: asig}}
+}
+
+type loopH struct {
+	*hist
+	t       *testing.T
+	hl      *hookLog
+	started bool
+}
+
+func (h *loopH) lobs() ev {
+	o := h.obs()
+	o["queued"] = jmsgs(h.run.Queued(o["prog"].(uint64)))
+	return o
+}
+
+func (h *loopH) lstart() {
+	cs, err := certstore.OpenStore(h.ctx, h.ds)
+	if err != nil {
+		if h.cs.Latest() != nil {
+			h.t.Fatalf("OpenStore: %v", err)
+		}
+		cs = h.cs // nothing stored yet: the store created for this history
+	}
+	h.cs = cs
+	h.w.ver.take()
+	h.hl.take()
+	run, out, err := f3.VerifNewRunnerOut(h.ctx, h.cs, h.backend, h.w.ps, h.w.ver, h.m, h.dir, h.w.pid)
+	if err != nil {
+		h.t.Fatalf("newRunner: %v", err)
+	}
+	h.run, h.out = run, out
+	if err := run.Start(h.ctx); err != nil {
+		h.t.Fatalf("Start: %v", err)
+	}
+	h.started = true
+	settle(h.t, 2)
+	outs, _ := h.drainOut()
+	h.r.emit(ev{"ev": "LStart", "self": jmsgs(run.SelfMessages()), "replay": h.replayed(), "out": outs, "o": h.lobs()})
+}
+
+func (h *loopH) lstop() {
+	ctx, cancel := context.WithTimeout(context.Background(), 60*time.Second)
+	err := h.run.Stop(ctx)
+	cancel()
+	settle(h.t, 0)
+	h.started, h.run = false, nil
+	h.r.emit(ev{"ev": "LStop", "err": errs(err)})
+}
+
+// lstep: the clock (and the EC head) move, then certificates obtained from other nodes are stored; the loop reacts
+func (h *loopH) lstep(now int64, ncerts int, kind string, first string) {
+	if now > h.now {
+		h.now = now
+		e := now/h.s.Period - h.lag
+		if e > h.backend.headE {
+			h.backend.setHead(e, at(e*h.s.Period), false)
+		}
+		h.clk.Set(at(now))
+		settle(h.t, 2)
+	}
+	certs := []ev{}
+	for k := 0; k < ncerts; k++ {
+		inst := h.s.Init
+		if l := h.cs.Latest(); l != nil {
+			inst = l.GPBFTInstance + 1
+		}
+		to := h.lastEp
+		if h.rng.Intn(3) != 0 && h.lastEp+1 <= h.backend.headE {
+			to = h.lastEp + 1
+		}
+		c := h.w.mkCert(inst, h.lastEp, to)
+		if err := h.cs.Put(h.ctx, c); err != nil {
+			h.t.Fatalf("Put(%d): %v", inst, err)
+		}
+		h.lastEp = to
+		certs = append(certs, jcert(c))
+	}
+	settle(h.t, 2)
+	outs, _ := h.drainOut()
+	h.r.emit(ev{"ev": "LStep", "kind": kind, "first": first, "now": h.now, "head": h.head(), "certs": certs, "replay": h.replayed(),
+		"out": outs, "o": h.lobs()})
+}
+
+func (h *loopH) publish(msg *gpbft.GMessage) {
+	enc := encoding.NewCBOR[*gpbft.PartialGMessage]()
+	data, err := enc.Encode(&gpbft.PartialGMessage{GMessage: msg})
+	if err != nil {
+		h.t.Fatal(err)
+	}
+	if err := h.run.PublishRaw(h.ctx, data); err != nil {
+		h.t.Fatalf("publish: %v", err)
+	}
+	// validated by the runner's topic validator (on a pubsub goroutine) ...
+	deadline := time.Now().Add(30 * time.Second)
+	for !h.w.ver.saw(msg.Signature) && time.Now().Before(deadline) {
+		time.Sleep(time.Millisecond)
+	}
+	// ... then forwarded to the loop's message queue; give that hand-over time (being late only weakens the probe)
+	time.Sleep(40 * time.Millisecond)
+}
+
+// prio1: the loop is busy beginning instance k (held inside GetProposal); meanwhile a certificate for k is stored and a
+// DECIDE vote for k arrives.  Served certificate first: the node skips to k+1 and drops the vote as old.  Served
+// message first: the node joins the DECIDE phase of k and asks for its own DECIDE vote to be signed.
+func (h *loopH) prio1() {
+	tA, waiting, _ := h.run.Alarm()
+	if !waiting || h.run.Begun() {
+		return
+	}
+	k := h.run.Progress().ID
+	if latestOf(h.cs)+1 != int64(k) {
+		return
+	}
+	ms, _ := msOf(tA)
+	h.backend.mu.Lock()
+	h.backend.gateOn = map[string]bool{"GetTipset": true}
+	h.backend.mu.Unlock()
+	h.now = ms
+	e := h.now/h.s.Period - h.lag
+	if e > h.backend.headE {
+		h.backend.setHead(e, at(e*h.s.Period), false)
+	}
+	h.hl.take()
+	h.clk.Set(at(ms)) // the alarm fires; the loop takes it and is held at the gate
+	select {
+	case <-h.backend.entered:
+	case <-time.After(60 * time.Second):
+		h.t.Fatalf("prio1: the loop did not take the alarm")
+	}
+	to := h.lastEp
+	if h.lastEp+1 <= h.backend.headE {
+		to = h.lastEp + 1
+	}
+	c := h.w.mkCert(k, h.lastEp, to)
+	if err := h.cs.Put(h.ctx, c); err != nil {
+		h.t.Fatalf("Put(%d): %v", k, err)
+	}
+	from := h.lastEp
+	h.lastEp = to
+	h.publish(h.w.decideMsg(k, from, to, 0))
+	h.backend.release <- struct{}{}
+	first := "unknown"
+	var outs []ev
+	deadline := time.Now().Add(60 * time.Second)
+	for time.Now().Before(deadline) {
+		settle(h.t, 2)
+		o, _ := h.drainOut()
+		outs = append(outs, o...)
+		for _, x := range o {
+			if x["inst"].(uint64) == k && x["phase"].(uint8) == uint8(gpbft.DECIDE_PHASE) {
+				first = "msg"
+			}
+		}
+		if first == "unknown" && h.hl.has("dropping message from old instance") {
+			first = "cert"
+		}
+		if first != "unknown" {
+			break
+		}
+		time.Sleep(2 * time.Millisecond)
+	}
+	settle(h.t, 2)
+	if outs == nil {
+		outs = []ev{}
+	}
+	if os.Getenv("VERIF_DEBUG") != "" {
+		h.t.Logf("prio1 k=%d first=%s log=%q", k, first, h.hl.take())
+	}
+	h.r.emit(ev{"ev": "LStep", "kind": "prio-cert", "first": first, "now": h.now, "head": h.head(), "certs": []ev{jcert(c)}, "replay": h.replayed(),
+		"out": outs, "o": h.lobs()})
+}
+
+// prio2: the loop is busy with the certificate for k (held inside computeNextInstanceStart); the start it computes for
+// k+1 is already due, and meanwhile a DECIDE vote for k+1 arrives.  Served alarm first: instance k+1 begins with
+// nothing queued.  Served message first: the vote is queued and handed over when the instance begins.
+func (h *loopH) prio2() {
+	k := h.run.Progress().ID
+	if latestOf(h.cs)+1 != int64(k) {
+		return
+	}
+	h.backend.mu.Lock()
+	h.backend.gateOn = map[string]bool{"GetHead": true}
+	h.backend.mu.Unlock()
+	h.hl.take()
+	to := h.lastEp
+	if h.lastEp+1 <= h.backend.headE {
+		to = h.lastEp + 1
+	}
+	c := h.w.mkCert(k, h.lastEp, to)
+	if err := h.cs.Put(h.ctx, c); err != nil {
+		h.t.Fatalf("Put(%d): %v", k, err)
+	}
+	h.lastEp = to
+	select {
+	case <-h.backend.entered:
+	case <-time.After(60 * time.Second):
+		h.t.Fatalf("prio2: the loop did not take the certificate")
+	}
+	h.publish(h.w.decideMsg(k+1, to, to, 0))
+	h.backend.release <- struct{}{}
+	first := "unknown"
+	var outs []ev
+	deadline := time.Now().Add(60 * time.Second)
+	for time.Now().Before(deadline) {
+		settle(h.t, 2)
+		o, _ := h.drainOut()
+		outs = append(outs, o...)
+		seen := false
+		for _, x := range outs {
+			if x["inst"].(uint64) == k+1 && x["phase"].(uint8) == uint8(gpbft.DECIDE_PHASE) {
+				seen = true
+			}
+		}
+		if seen {
+			first = "alarm"
+			if h.hl.has("Delivering queued") {
+				first = "msg"
+			}
+			break
+		}
+		time.Sleep(2 * time.Millisecond)
+	}
+	settle(h.t, 2)
+	if outs == nil {
+		outs = []ev{}
+	}
+	if os.Getenv("VERIF_DEBUG") != "" {
+		h.t.Logf("prio2 k=%d first=%s log=%q", k, first, h.hl.take())
+	}
+	h.r.emit(ev{"ev": "LStep", "kind": "prio-alarm", "first": first, "now": h.now, "head": h.head(), "certs": []ev{jcert(c)}, "replay": h.replayed(),
+		"out": outs, "o": h.lobs()})
+}
+
+func TestRunnerLoop(t *testing.T) {
+	r, done := openRec(t)
+	defer done()
+	seed := int64(envInt("VERIF_SEED", 1))
+	nh := envInt("VERIF_N", 16)
+	rng := rand.New(rand.NewSource(seed))
+	ctx0, cancel := context.WithCancel(context.Background())
+	defer cancel()
+	w := newWorld(t, ctx0)
+	hl := &hookLog{}
+	f3.VerifSetTracer(&recTracer{l: hl})
+	base := t.TempDir()
+	for hi := 0; hi < nh; hi++ {
+		s := mfSpec{Period: hPeriods[(hi+int(seed))%3], Mult2: gMult2[rng.Intn(5)], Lookback: []int{0, 0, 1}[rng.Intn(3)],
+			Table2: gTables[rng.Intn(4)], Align: []int64{0, 3000, 8000}[rng.Intn(3)], Init: gInits[hi%2]}
+		ctx, clk := clock.WithMockClock(ctx0)
+		m := w.manifest(s)
+		m.ChainExchange.RebroadcastInterval = 24 * time.Hour // a ticker on the mock clock: keep it out of the way of clock jumps
+		h := &loopH{t: t, hl: hl, hist: &hist{w: w, r: r, rng: rng, ctx: ctx, clk: clk, s: s, m: m, dir: filepath.Join(base, fmt.Sprintf("l%d", hi)),
+			local: map[uint64]bool{1: true, 2: true}, sigs: map[string]mkey{}, lastEp: bootE, lag: int64(rng.Intn(2)),
+			ds: ds_sync.MutexWrap(datastore.NewMapDatastore()), decEnd: map[uint64]int64{}}}
+		h.backend = &linEC{period: m.EC.Period, table: w.table, hl: hl, entered: make(chan string, 1), release: make(chan struct{})}
+		h.now = (bootE+3+int64(rng.Intn(4)))*s.Period + int64(rng.Intn(int(s.Period)))
+		he := h.now/s.Period - h.lag
+		h.backend.setHead(he, at(he*s.Period), false)
+		clk.Set(at(h.now))
+		var err error
+		if h.cs, err = certstore.CreateStore(ctx, h.ds, s.Init, w.table); err != nil {
+			t.Fatal(err)
+		}
+		r.emit(ev{"ev": "HReset", "mf": s, "local": []uint64{1, 2}, "now": h.now, "head": h.head(), "lossy": false, "bootE": bootE})
+		if hi%3 != 0 {
+			h.put(1 + rng.Intn(4))
+		}
+		// some histories: the node has been working on the next instance before (its votes are in the WAL)
+		if hi%2 == 1 {
+			h.boot()
+			h.initialChoice()
+			for n := 0; n < 12; n++ {
+				_, mbs := h.drainOut()
+				h.collect(mbs)
+				_, waiting, fired := h.run.Alarm()
+				switch {
+				case len(h.inbox) > 0 && n < 9:
+					h.deliver()
+				case fired:
+					h.alarm()
+				case waiting:
+					t1, _, _ := h.run.Alarm()
+					ms, _ := msOf(t1)
+					h.tick(ms)
+				}
+			}
+			h.crash()
+			if rng.Intn(3) == 0 {
+				h.put(1 + rng.Intn(2)) // the others moved on while the node was down
+			}
+		}
+		h.lstart()
+		for n := 0; n < 5; n++ {
+			switch x := rng.Intn(10); {
+			case x < 3:
+				h.lstep(h.now, 1+rng.Intn(3), "put", "")
+			case x < 5:
+				t1, waiting, _ := h.run.Alarm()
+				ms, _ := msOf(t1)
+				if waiting && ms > h.now {
+					h.lstep(ms, 0, "tick", "")
+				} else {
+					h.lstep(h.now+int64(rng.Intn(int(3*s.Period))), 0, "tick", "")
+				}
+			case x < 7:
+				h.prio1()
+			case x < 9:
+				// the node is far behind: whatever start is computed next is already due
+				h.lstep(h.now+int64(40+rng.Intn(40))*s.Period, 0, "tick", "")
+				h.prio2()
+			default:
+				h.lstop()
+				h.lstart()
+			}
+		}
+		h.lstop()
+		os.RemoveAll(h.dir)
+	}
+	t.Logf("histories=%d events=%d", nh, r.n)
 }
